@@ -26,6 +26,9 @@ try:
         print(c, '->', rc, len(viol), meta['checks'][c]['first_violation'])
 finally:
     sh('git -C /repo checkout -- .')
+    sys.path.insert(0, V)
+    from mc import core
+    core.build()      # never leave a runner built from the changed tree behind
 was = meta.get('detected')
 meta['detected'] = any(v['exit'] == 1 and v['violations'] > 0 for v in meta['checks'].values())
 if meta['detected'] and not was:
